@@ -115,6 +115,6 @@ HARNESSES = [
                     "thorough": [{"nph": 2, "nel": 2, "ncls": 4}, {"nph": 3, "nel": 1, "ncls": 3}, {"nph": 2, "nel": 1, "ncls": 3, "regrid": True}]}),
     Harness("C02.transport_count", transport_count, functions=_F, assumptions=_A + ["nucRate >= 0, dt > 0; growth field and nucleation radius unconstrained"],
             bounds={"classes": "ncls"},
-            params={"quick": [{"ncls": 2}, {"ncls": 3}], "thorough": [{"ncls": 4}]}),
+            params={"quick": [{"ncls": 2}, {"ncls": 3, "_shards": 2}], "thorough": [{"ncls": 4, "_shards": 16}]}),
     Harness("C02.update_truncates", update_truncates, functions=_F, assumptions=_A, params={"quick": [{"ncls": 3}], "thorough": [{"ncls": 5}]}),
 ]
